@@ -443,6 +443,8 @@ class Externals:
             yield ctx, ctx.alloc('map', SV.empty(BidictT()))
             return
         if name.startswith('type:'):
+            if name[5:] not in BUILTINS:
+                raise Unsupported('call of the type %s' % name[5:])
             yield from BUILTINS[name[5:]].impl(eng, ctx, args, kwargs)
             return
         if name.startswith('socketio.') and name.count('.') == 2:
@@ -997,6 +999,30 @@ def _wait_for(eng, ctx, args, kwargs):
     yield ctx, x
 
 
+@builtin('dict')
+def _dict(eng, ctx, args, kwargs):
+    """dict() / dict(mapping): a NEW dictionary with the same items (not the object given: nothing equates the two)"""
+    items = args.items()
+    if kwargs:
+        raise Unsupported('dict(**kwargs)')
+    if not items:
+        yield ctx, ctx.alloc('map', {})
+        return
+    x = items[0]
+    snap = _snapshot(eng, ctx, x) if not isinstance(x, S) else None
+    if snap is not None:
+        yield ctx, ctx.alloc('map', snap)
+        return
+    if isinstance(x, S) and x.sort == 'V':
+        r = smt.fresh('dictcopy', V)
+        k = z3.Const('dc_k', V)
+        ctx.assume(smt.kind(r) == smt.K_DICT, smt.vlen(r) == smt.vlen(x.t))
+        ctx.assume(z3.ForAll([k], z3.And(smt.vhas(r, k) == smt.vhas(x.t, k), smt.vget(r, k) == smt.vget(x.t, k)), patterns=[smt.vhas(r, k)]))
+        yield ctx, S(r)
+        return
+    raise Unsupported('dict(%r)' % (x,))
+
+
 @builtin('asyncio.sleep')
 def _aio_sleep(eng, ctx, args, kwargs):
     """await asyncio.sleep(t): recorded like time.sleep(t)"""
@@ -1269,14 +1295,14 @@ def m_remove(ext, eng, ctx, base, args, kwargs):
     raise Unsupported('.remove on %r' % (base,))
 
 
-def _no_alias_write(ctx, base, what):
+def _no_alias_write(eng, ctx, base, what):
     if isinstance(base, HRef) and ctx.heap[base.id].alias_of is not None:
-        raise Unsupported('%s through a live view of %r (aliasing write: outside the by-value container model)' % (what, ctx.heap[base.id].alias_of))
+        eng.alias_write(ctx, ctx.heap[base.id], what)
 
 
 def m_update(ext, eng, ctx, base, args, kwargs):
     (x,) = args.items()
-    _no_alias_write(ctx, base, 'update')
+    _no_alias_write(eng, ctx, base, 'update')
     if isinstance(base, HRef) and ctx.heap[base.id].kind == 'map' and isinstance(ctx.heap[base.id].data, dict) and not ctx.heap[base.id].data:
         ctx.heap[base.id].data = SV.empty(MapT(Leaf('V')))
     if isinstance(base, HRef) and ctx.heap[base.id].kind == 'map' and isinstance(ctx.heap[base.id].data, SV):
@@ -1316,7 +1342,7 @@ def m_setdefault(ext, eng, ctx, base, args, kwargs):
 
 def m_pop(ext, eng, ctx, base, args, kwargs):
     items = args.items()
-    _no_alias_write(ctx, base, 'pop')
+    _no_alias_write(eng, ctx, base, 'pop')
     if isinstance(base, HRef) and ctx.heap[base.id].kind == 'map' and isinstance(ctx.heap[base.id].data, dict):
         k = eng.to_v(ctx, items[0])
         d = ctx.heap[base.id].data
